@@ -930,6 +930,10 @@ class ExcelCompiler:
         progress_tracker = iterative_eval_tracker(iterations, tolerance)
         while True:
             progress_tracker.inc_iteration_number()
+            for cell in self.cell_map.values():
+                if isinstance(cell, _CellRange):
+                    # ranges are recalculated from their cells on every iteration
+                    cell.value = None
             results = self._evaluate_non_iterative(address)
             if progress_tracker.done:
                 return results
